@@ -139,8 +139,12 @@ def record_one(spec):
     if not valid or not is_rgb_ints(pair.text.rgb) or not is_rgb_ints(pair.bg.rgb):
         return [{"e": "C", "spell": spec.get("spell", "?"), "large": large, "valid": False, "text": [], "bg": [], "raised": ""}]
     t_rgb, b_rgb = tuple(pair.text.rgb), tuple(pair.bg.rgb)
+    try:
+        readable = str(pair.is_readable)
+    except Exception as ex:
+        readable = "raised:" + type(ex).__name__
     beh.append({"e": "C", "spell": spec.get("spell", "?"), "large": large, "valid": True, "text": list(t_rgb),
-                "bg": list(b_rgb), "raised": ""})
+                "bg": list(b_rgb), "raised": "", "readable": readable, "comp": spec.get("comp") or {"kind": "none"}})
     wit_cache = {}
     for mode, vr in spec.get("runs", ALL_RUNS):
         _CHAIN = [] if have_wrap else None
